@@ -23,7 +23,31 @@ def build_cases(tier, seed):
     for i in range(n_rand):
         cases.append(progs.random_case(rng, i, rng.choice(["local", "local", "local_lru", "memory", "noop"])))
     cases += progs.location_cases(tier, seed)
+    cases += aliased_local_import_probes()
     return cases
+
+
+def aliased_local_import_probes():
+    """A plain helper reached only through a name that an import statement inside the caller's body binds
+    (`from pkg.mod import f`, `import pkg.mod as m`, `from pkg import mod`); the helper's body is edited."""
+    out = []
+    for i, form in enumerate(gen.ALIASED_LOCAL_FORMS):
+        p0 = progs.base_program("c01al%d" % i)
+        # only h1 (calling the plain helper h2 of another module) uses the form
+        p0["fns"][p0["_ids"]["h1"]]["import_form"] = form
+        p1, d = gen.e_set_const(p0, p0["_ids"]["h2"])
+        d.update({"position": "h2", "import_form": form})
+        for hn, hist in (("restart", progs.history_restart([0, 1, 0, 1])), ("reload", progs.history_same_process([0, 1, 0, 1], "reload"))):
+            out.append(progs._case("aliased_local_import:%s@h2|%s|local" % (form, hn), [p0, p1], {(0, 1): d}, hist, "local"))
+    return out
+
+
+def classify(case, hi, feats):
+    """Mechanism label of a C01 violation (only for the failure family recorded in known_findings.json)."""
+    ed = feats.get("edit") or {}
+    if case.get("name", "").startswith("aliased_local_import:") and feats.get("kind") == "stale-or-wrong-value" and ed.get("import_form") in gen.ALIASED_LOCAL_FORMS and ed.get("position") == "h2":
+        return "function-local-aliased-import-not-tracked"
+    return None
 
 
 def run(tier, seed):
@@ -37,7 +61,7 @@ def run(tier, seed):
         "and an edit changed the reference value."
     )
     cases = build_cases(tier, seed)
-    e1run.run_cases(cases, "C01", ["values"], rep)
+    e1run.run_cases(cases, "C01", ["values"], rep, classify_name="checks.c01.classify")
     rep.sample({"case": cases[0]["name"], "history": cases[0]["history"], "edit": cases[0]["edit_desc"].get("0->1"),
                 "entry_module_text": gen.render(cases[0]["versions"][0])[cases[0]["versions"][0]["pkg"] + "/top.py"][-600:]})
     rep.sample({"case": cases[-1]["name"], "history": cases[-1]["history"][:4]})
@@ -55,5 +79,5 @@ def replay(payload):
     if obs["failed"]:
         rep.inconclusive.append(obs["failed"])
         return rep
-    e1.oracle_values(case, obs, rep)
+    e1.oracle_values(case, obs, rep, "C01", classify)
     return rep
